@@ -116,6 +116,8 @@ def body_text(body, v):
     for it in body:
         if it["k"] == "comment":
             parts.append(("c", it["text"]))
+        elif it["k"] == "unknown":
+            parts.append(("u", it["text"]))         # an at-rule statement inside the block; it brings its own ';'
         else:
             name = escape_name(case(it["name"], v), v)
             txt = name + W(v) + CM(v) + ":" + W(v) + value_text(it["value"], v)
@@ -220,6 +222,8 @@ def body_of(style):
             out.append({"k": "comment", "text": val.cssText})
         elif isinstance(val, css.Property):
             out.append({"k": "decl", "name": val.name, "value": comps(val.propertyValue), "prio": val.priority})
+        elif isinstance(val, css.CSSUnknownRule):
+            out.append({"k": "unknown", "text": re.sub(r"\s+", " ", val.cssText).strip()})
         else:
             out.append({"k": "?" + str(it.type), "text": str(getattr(val, "cssText", val))})
     return out
